@@ -82,6 +82,10 @@ def build_group(ctx, fam, g):
     # a key that makes an early pattern size succeed next to one needing a
     # later pattern (loop `break` state must not leak between keys)
     arts.append(workloads.rsa_artifact(rng, 'word'))
+    # a small modulus ahead of one that needs the largest pattern size (size-
+    # dependent parameters must be derived per key, not carried along)
+    arts.append(workloads.rsa_artifact(rng, 'tiny'))
+    arts.append(workloads.rsa_artifact(rng, 'word-large'))
     protos = workloads.rsa_keys(arts)
     tags = [a['kind'] for a in arts]
     healthy = workloads.rsa_keys([workloads.rsa_artifact(rng, 'healthy')
